@@ -5,6 +5,7 @@ package main
 // oracle (AddNode / AddEdge / Sort), every outcome of which is enumerated.
 
 import (
+	"os"
 	"fmt"
 	"go/types"
 	"sort"
@@ -526,10 +527,22 @@ func c19Order(p *Prog, rp *Report) {
 			}
 			text := "Format: 3.0 (quilt)\nSource: " + s.name + "\nBinary: " + bins + "\nArchitecture: any all\nVersion: 1.0-" + fmt.Sprint(i+1) + "\nMaintainer: A <a@b>\n"
 			if s.deps != "" {
-				text += []string{"Build-Depends", "Build-Depends-Arch", "Build-Depends-Indep"}[i%3] + ": " + s.deps + "\n"
+				deps := s.deps
+				if s.name == "tool" {
+					// a single physical line longer than any reader buffer, the dependency that matters at its end
+					var filler []string
+					for k := 0; k < 330; k++ {
+						filler = append(filler, fmt.Sprintf("filler-pkg-%04d", k)) // byte 4096 of the line falls inside a name
+					}
+					deps = strings.Join(filler, ", ") + ", " + deps
+				}
+				text += []string{"Build-Depends", "Build-Depends-Arch", "Build-Depends-Indep"}[i%3] + ": " + deps + "\n"
 			}
 			text += "Files:\n 0123456789abcdef0123456789abcdef 10 " + s.name + "_1.0.tar.gz\n"
 			obj, isErr, w := r9.unmarshal(dscT, text)
+			if os.Getenv("GDSA_DEBUG_C19") != "" {
+				fmt.Fprintf(os.Stderr, "dsc %s: len=%d isErr=%v why=%q\n", s.name, len(text), isErr, w)
+			}
 			if w != "" || isErr {
 				why = fmt.Sprintf("decoding the .dsc of %s: %s (rejected: %v)", s.name, w, isErr)
 				break
@@ -571,6 +584,8 @@ func c19Order(p *Prog, rp *Report) {
 		}
 		if strings.HasPrefix(why, "PANIC") {
 			r.bad(key, pos, "ordering sources parsed from .dsc documents panics: "+why, nil)
+		} else if strings.HasSuffix(why, ":  (rejected: true)") {
+			r.bad(key, pos, "a well-formed .dsc (its Build-Depends on one line of more than 4096 bytes) is refused: "+why, nil)
 		} else if why != "" {
 			r.undecided(key, pos, why)
 		}
